@@ -991,6 +991,7 @@ func pipelineGenOpt(r *Rng, tier string, redeliveries bool) Case {
 		}
 	}
 	id, key, lsn := 0, 0, 1000
+	lastCommit := 0
 	ntx := r.Range(1, 8)
 	for txn := 1; txn <= ntx; txn++ {
 		deliveries := 1
@@ -1005,6 +1006,12 @@ func pipelineGenOpt(r *Rng, tier string, redeliveries bool) Case {
 			nd := r.Range(0, 6)
 			if r.Chance(6) {
 				nd = r.Range(8, 14)
+			}
+			// PostgreSQL delivers transactions in COMMIT order, but the change LSNs of concurrent
+			// transactions interleave: a transaction's changes may lie before the previous one's
+			commitFloor := lsn
+			if r.Chance(50) && lsn > 1100 {
+				lsn -= r.Range(10, 90)
 			}
 			for i := 0; i < nd; i++ {
 				id++
@@ -1033,7 +1040,14 @@ func pipelineGenOpt(r *Rng, tier string, redeliveries bool) Case {
 				}
 				continue
 			}
+			if lsn < commitFloor {
+				lsn = commitFloor
+			}
+			if lsn < lastCommit {
+				lsn = lastCommit // COMMIT positions strictly increase
+			}
 			lsn += r.Range(1, 20)
+			lastCommit = lsn
 			lines = append(lines, fmt.Sprintf("pipeline in COMMIT e %d %d %d 0 0", txn, key, lsn))
 			env(r.Intn(3))
 		}
